@@ -51,7 +51,10 @@ def make_linear_parameter_grid_1d(
     obj : ParameterGrid
         The ParameterGrid object holding the discrete parameter grid values.
     """
-    grid = np.arange(low, high+delta, delta)
+    # Use half a delta as margin for the end point: with a full delta, the
+    # floating-point rounding of (high+delta-low)/delta can create one grid
+    # point too many.
+    grid = np.arange(low, high+delta/2, delta)
     return ParameterGrid(name, grid, delta)
 
 def make_logarithmic_parameter_grid_1d(
@@ -1254,7 +1257,10 @@ class ParameterGrid(object):
             'The decimals argument must be castable to type int!',
             allow_None=True)
 
-        grid = np.arange(start, stop+delta, delta)
+        # Use half a delta as margin for the end point: with a full delta, the
+        # floating-point rounding of (stop+delta-start)/delta can create one
+        # grid point too many, e.g. for start=100, stop=100.01, delta=0.001.
+        grid = np.arange(start, stop+delta/2, delta)
 
         return ParameterGrid(
             name=name,
